@@ -16,12 +16,19 @@ PROPERTIES = {
         "level": "proof",
         "min_obligations": 2000,
     },
-    "T": {"contracts": [align.GetAlignedAxes], "level": "proof"},
+    "T": {"contracts": [align.Align], "level": "proof"},
     "C03": {
         "contracts": [bases.SetItem, indexing.MaybeCastType, (bases.Accessors, r"write|put|setitem"), (bases.ItemForwarding, r"^set"),
                       (bases.GetIndices, r"^r[01]-")],
         "level": "proof",
         "min_obligations": 1500,
+    },
+    "C06": {
+        "contracts": [axes.AxisUnion, axes.AxisIntersection, axes.CommonAxis, align.GetAlignedAxes, align.Align,
+                      (align.ReindexAxis, r"method_None")],
+        "level": "other",
+        "min_obligations": 2000,
+        "explanation": "proved: direction / uniqueness / order of Axis.union and intersection, frame and sort of _get_aligned_axes (real bodies, exact identity), align's composition over the callee contracts (labels, data, NaN fill, dims, forwarding, inputs untouched), reindex_axis. bounded stand-in (exhaustive, lengths <= 3): the set-inclusion clauses of union / intersection / _common_axis, on which the 'set union / intersection' sentence of the property rests.",
     },
     "C07": {
         "contracts": [indexing.LocateMany, align.TakeAxis, align.ReindexAxis, (indexing.MaybeCastType, r"^[if]<-")],
